@@ -26,11 +26,69 @@ func (te *TypeEnv) isAggregate(t types.Type) bool {
 // fieldHeap returns the heap name of field i of struct type t.
 func (te *TypeEnv) fieldHeap(t types.Type, i int) string {
 	st := t.Underlying().(*types.Struct)
-	return "H_" + typeName(t) + "." + fieldIdent(st, i)
+	n := "H_" + typeName(t) + "." + fieldIdent(st, i)
+	te.noteRefKind(n, st.Field(i).Type())
+	return n
 }
 
-func (te *TypeEnv) elemHeap(e types.Type) string { return "A_" + mangle(te.SortOf(e)) }
-func (te *TypeEnv) cellHeap(t types.Type) string { return "C_" + mangle(te.SortOf(t)) }
+func (te *TypeEnv) elemHeap(e types.Type) string {
+	// one element heap per Go element type: slices of different element types never share memory (no unsafe in scope)
+	e = types.Unalias(e)
+	if b, ok := e.(*types.Basic); ok && b.Kind() < types.UntypedBool {
+		e = types.Typ[b.Kind()] // byte and uint8 (rune and int32) are one type
+	}
+	n := "A_" + typeName(e)
+	te.noteRefKind(n, e)
+	return n
+}
+func (te *TypeEnv) cellHeap(t types.Type) string {
+	n := "C_" + mangle(te.SortOf(t))
+	te.noteRefKind(n, t)
+	return n
+}
+
+// noteRefKind records that heap n may hold references (pointers, maps) or slices: such heaps carry the allocation-time
+// bound "everything stored here was allocated no later than the moment this heap value came into being".
+func (te *TypeEnv) noteRefKind(n string, t types.Type) {
+	if te.heapRefKind == nil {
+		te.heapRefKind = map[string]string{}
+	}
+	switch types.Unalias(t).Underlying().(type) {
+	case *types.Pointer, *types.Map:
+		te.heapRefKind[n] = "ref"
+	case *types.Slice:
+		te.heapRefKind[n] = "slice"
+	}
+}
+
+// refBound returns the allocation-time bound for a freshly introduced heap value t of heap n (or "true").
+func (te *TypeEnv) refBound(n string, t Term, clk Term) Term {
+	k := te.heapRefKind[n]
+	if k == "" {
+		return tTrue
+	}
+	at := func(x string) string {
+		if k == "slice" {
+			return "(atime (sarr " + x + "))"
+		}
+		return "(atime " + x + ")"
+	}
+	want := SInt
+	if k == "slice" {
+		want = SSlice
+	}
+	switch t.Sort {
+	case want:
+		return Term{fmt.Sprintf("(<= %s %s)", at(t.S), clk.S), SBool}
+	case arraySort(SInt, want):
+		sel := fmt.Sprintf("(select %s x)", t.S)
+		return Term{fmt.Sprintf("(forall ((x Int)) (! (<= %s %s) :pattern (%s)))", at(sel), clk.S, sel), SBool}
+	case arraySort(SInt, arraySort(SInt, want)):
+		sel := fmt.Sprintf("(select (select %s a) x)", t.S)
+		return Term{fmt.Sprintf("(forall ((a Int) (x Int)) (! (<= %s %s) :pattern (%s)))", at(sel), clk.S, sel), SBool}
+	}
+	return tTrue
+}
 
 // subObj returns the address of the sub-object stored in field i of the object at ref.
 func (te *TypeEnv) subObj(t types.Type, i int, ref Term) Term {
@@ -42,7 +100,7 @@ func (te *TypeEnv) subObj(t types.Type, i int, ref Term) Term {
 		inv := smtName("inv_" + fn)
 		te.pre.Add("fn:"+inv, fmt.Sprintf("(declare-fun %s (Int) Int)", inv))
 		k := te.subTag()
-		te.pre.Add("ax:"+fn, fmt.Sprintf("(assert (forall ((p Int)) (! (and (= (%s (%s p)) p) (= (subtag (%s p)) %d) (not (= (%s p) 0))) :pattern ((%s p)))))", inv, fn, fn, k, fn, fn))
+		te.pre.Add("ax:"+fn, fmt.Sprintf("(assert (forall ((p Int)) (! (and (= (%s (%s p)) p) (= (subtag (%s p)) %d) (not (= (%s p) 0)) (= (atime (%s p)) (atime p))) :pattern ((%s p)))))", inv, fn, fn, k, fn, fn, fn))
 	}
 	return Term{app(fn, ref.S), SInt}
 }
@@ -64,7 +122,7 @@ func (te *TypeEnv) elemObj(e types.Type, ref, idx Term) Term {
 		te.pre.Add("fn:"+ia, fmt.Sprintf("(declare-fun %s (Int) Int)", ia))
 		te.pre.Add("fn:"+ii, fmt.Sprintf("(declare-fun %s (Int) Int)", ii))
 		k := te.subTag()
-		te.pre.Add("ax:"+fn, fmt.Sprintf("(assert (forall ((p Int) (i Int)) (! (and (= (%s (%s p i)) p) (= (%s (%s p i)) i) (= (subtag (%s p i)) %d) (not (= (%s p i) 0))) :pattern ((%s p i)))))", ia, fn, ii, fn, fn, k, fn, fn))
+		te.pre.Add("ax:"+fn, fmt.Sprintf("(assert (forall ((p Int) (i Int)) (! (and (= (%s (%s p i)) p) (= (%s (%s p i)) i) (= (subtag (%s p i)) %d) (not (= (%s p i) 0)) (= (atime (%s p i)) (atime p))) :pattern ((%s p i)))))", ia, fn, ii, fn, fn, k, fn, fn, fn))
 	}
 	return Term{app(fn, ref.S, idx.S), SInt}
 }
